@@ -1,22 +1,25 @@
 (* C14_Corr.v — correspondence vocabulary for C14.  A case is a set of hooks with their
    admission bindings, the path the implementation registered for every binding, and a list
    of requests sent to the real router (one operator per case), each with what the hook
-   stub was scripted to do, the HTTP answer and the hook process that ran. *)
+   stub was scripted to do (exit status and the four files a hook hands back), the HTTP
+   answer, the hook process that ran, and the side effects observed afterwards (marker
+   Kubernetes operation applied to the cluster, marker metric present in the hooks' metric
+   storage). *)
 From Verif Require Import Common C14_Model C14_Spec.
 
-Definition req := (bytes * body * run * (answer * ran))%type.
+Definition req := (bytes * body * run * (answer * ran) * (bool * bool))%type.
 
 Inductive case :=
 | Case (hooks : list hook) (regs : list reg) (reqs : list req)
 | CCrash.
 
-Inductive mobs := MObs (regs : list reg) (answers : list (answer * ran)) | MCrash.
+Inductive mobs := MObs (regs : list reg) (answers : list (answer * ran * (bool * bool))) | MCrash.
 
 Definition model_obs (c : case) : mobs :=
   match c with
   | Case hooks _ reqs =>
     MObs (model_regs hooks)
-         (map (fun q => match q with (path, b, r, _) => admit_request hooks path b r end) reqs)
+         (map (fun q => match q with (path, b, r, _, _) => (admit_request hooks path b r, admit_effects hooks path b r) end) reqs)
   | CCrash => MCrash
   end.
 
@@ -51,17 +54,20 @@ Definition ran_eqb (a b : ran) : bool :=
   | _, _ => false
   end.
 
-Definition obs_eqb (a b : answer * ran) : bool := answer_eqb (fst a) (fst b) && ran_eqb (snd a) (snd b).
+Definition obs_eqb (a b : answer * ran * (bool * bool)) : bool :=
+  answer_eqb (fst (fst a)) (fst (fst b)) && ran_eqb (snd (fst a)) (snd (fst b))
+  && Bool.eqb (fst (snd a)) (fst (snd b)) && Bool.eqb (snd (snd a)) (snd (snd b)).
 
 Definition agrees (c : case) : bool :=
   match c, model_obs c with
   | Case _ regs reqs, MObs mregs answers =>
-    list_eqb reg_eqb mregs regs && list_eqb obs_eqb answers (map snd reqs)
+    list_eqb reg_eqb mregs regs
+    && list_eqb obs_eqb answers (map (fun q => match q with (_, _, _, o, e) => (o, e) end) reqs)
   | _, _ => false
   end.
 
 Definition P_req (regs : list reg) (q : req) : bool :=
-  match q with (path, b, r, (a, who)) => P regs path b r a who end.
+  match q with (path, b, r, (a, who), _) => P regs path b r a who end.
 
 Definition P_case (c : case) : bool :=
   match c with
